@@ -82,8 +82,9 @@ func TestC19b(t *testing.T) {
 		defer func() { _ = hp.Stop() }()
 		targets := map[string]*receiver.Recv{"named": {Type: "http", Data: []byte(fmt.Sprintf(`{"url":%q,"headers":{"X-Target":"named"}}`, srv[0].URL+"/named"))}}
 		sw := sender.NewVerifWorker(rec, m, targets, hp)
+		st1 := rapid.SampledFrom([]int{200, 503, 404}).Draw(rt, "status1") // drawn outside the lock: a Draw panics while rapid shrinks
 		mu.Lock()
-		status[1] = rapid.SampledFrom([]int{200, 503, 404}).Draw(rt, "status1")
+		status[1] = st1
 		mu.Unlock()
 		n := rapid.IntRange(2, 8).Draw(rt, "n")
 		var shape []string
